@@ -191,6 +191,44 @@ def boundary_cases():
     return out
 
 
+CASE_VARIANTS = lambda w: sorted({w, w.upper(), w.capitalize(), w[0] + w[1:].upper(), w[:-1] + w[-1].upper()})  # noqa
+
+
+def accept_cases():
+    """Declarations which the documentation says are legal: every spelling (lower, UPPER, Capitalised, mixed) of the
+    case-insensitive attribute value `intent` on every host on which that intent is allowed; the attribute values
+    documented as case-sensitive (`deref`, `owner`) in their documented spelling.
+    -> list of (decl, attrs or None, rule, "accept" | "reject")"""
+    out = []
+    for w in ("in", "out", "inout"):
+        for v in CASE_VARIANTS(w):
+            out.append(("void f(int *a +intent(%s))" % v, None, "intent-value-is-case-insensitive", "accept"))
+            out.append(("void f(const double *a +intent(%s))" % v, None, "intent-value-is-case-insensitive", "accept"))
+            out.append(("void f(int &a +intent(%s))" % v, None, "intent-value-is-case-insensitive", "accept"))
+            out.append(("void f(int *a)", {"a": {"intent": v}}, "intent-value-is-case-insensitive", "accept"))
+            if w == "in":
+                out.append(("void f(int a +intent(%s))" % v, None, "intent-value-is-case-insensitive", "accept"))
+            else:
+                out.append(("void f(int a +intent(%s))" % v, None, "intent-out-only-on-pointer", "reject"))
+    for v in ("i", "input", "in out", "in,out", "inn", "", "0"):
+        out.append(("void f(int *a)", {"a": {"intent": v}}, "intent-must-be-in-out-inout", "reject"))
+    for v in ("allocatable", "pointer", "raw", "scalar"):
+        out.append(("int *f() +deref(%s)" % v, None, "deref-documented-value", "accept"))
+        out.append(("void f(int **a +intent(out)+deref(%s))" % v, None, "deref-documented-value", "accept"))
+    for v in ("caller", "library"):
+        out.append(("int *f() +owner(%s)" % v, None, "owner-documented-value", "accept"))
+    # text after the expression of an attribute is not part of any documented form
+    for v in ("n m", "n) m", "n, m 3", "size(a) 3", "n 1"):
+        out.append(("void f(int n, int m, int *a)", {"a": {"dimension": v}}, "dimension-is-a-list-of-expressions", "reject"))
+    for v in ("size(a) 3", "size(a) b", "n n", "size(a)) 1"):
+        out.append(("void f(int n, int *a, int b)", {"b": {"implied": v}}, "implied-is-one-expression", "reject"))
+    for v in ("n", "n,m", "size(b)", "n+1", "2*n"):
+        out.append(("void f(int n, int m, int *b, int *a)", {"a": {"dimension": v}}, "dimension-documented-form", "accept"))
+    for v in ("size(a)", "size(a,1)", "len(s)", "len_trim(s)", "n+1"):
+        out.append(("void f(int n, int *a, char *s, int b)", {"b": {"implied": v}}, "implied-documented-form", "accept"))
+    return out
+
+
 def run_vattrs(ctx, thorough, ok):
     from shroud import ast as sast, generate, typemap, main as smain
     from tools.props import c17_attrs
@@ -201,8 +239,19 @@ def run_vattrs(ctx, thorough, ok):
         for lang in ("c", "cxx"):
             label = "boundary %s" % decl
             cases.append((lang, None, [{"decl": decl}], label, ("boundary", decl)))
-            expect[(lang, label)] = rule
-    bstat = {"cases": 0, "must_reject": 0, "rejected": 0, "accepted_although_illegal": 0, "library_rejected": 0}
+            expect[(lang, label)] = (rule, "reject") if rule is not None else (None, None)
+    for decl, attrs, rule, mode in accept_cases():
+        for lang in ("c", "cxx"):
+            if "&" in decl and lang == "c":
+                continue
+            label = "boundary %s%s" % (decl, (" attrs=%r" % (attrs,)) if attrs else "")
+            entry = {"decl": decl}
+            if attrs:
+                entry["attrs"] = attrs
+            cases.append((lang, None, [entry], label, ("boundary", decl)))
+            expect[(lang, label)] = (rule, mode)
+    bstat = {"cases": 0, "must_reject": 0, "rejected": 0, "accepted_although_illegal": 0, "library_rejected": 0,
+             "must_accept": 0, "rejected_although_legal": 0}
     reqs, impl, labels = [], [], []
     stat = {"libraries": 0, "library_rejected_before_verify": 0, "nodes": 0, "outside_model": 0, "fortran_generic_skipped": 0,
             "by_outcome": {}, "by_id": {}}
@@ -220,6 +269,10 @@ def run_vattrs(ctx, thorough, ok):
                 if (lang, label) in expect:
                     bstat["cases"] += 1
                     bstat["library_rejected"] += 1
+                    if expect[(lang, label)][1] == "accept":
+                        ctx.fail("attrs-rejected:" + expect[(lang, label)][0], "[%s] %s is rejected while the library is "
+                                 "built although the documentation (%r) allows it" % (lang, label[9:], expect[(lang, label)][0]),
+                                 {"kind": "attrs", "yaml": d})
                 continue
             except Exception:  # noqa  (an internal exception here is C17's own oracle's business)
                 continue
@@ -249,9 +302,16 @@ def run_vattrs(ctx, thorough, ok):
                 except Exception as e:  # noqa
                     res = "crash " + type(e).__name__
                 if (lang, label) in expect and kind == "fcn":
-                    rule = expect[(lang, label)]
+                    rule, mode = expect[(lang, label)]
                     bstat["cases"] += 1
-                    if rule is not None:
+                    if mode == "accept":
+                        bstat["must_accept"] += 1
+                        if not res.startswith("ok"):
+                            bstat["rejected_although_legal"] += 1
+                            ctx.fail("attrs-rejected:" + rule, "[%s] %s is not accepted by VerifyAttrs (%s) although the "
+                                     "documentation (%r) allows it" % (lang, label[9:], res[:120], rule),
+                                     {"kind": "attrs", "yaml": d})
+                    elif mode == "reject":
                         bstat["must_reject"] += 1
                         if res.startswith("reject"):
                             bstat["rejected"] += 1
